@@ -1,6 +1,10 @@
 package h
 
 import (
+	"time"
+
+	"cosmossdk.io/math"
+
 	"hv/env"
 	"hv/nd"
 
@@ -32,4 +36,56 @@ func H_C17_params() {
 	nd.Reach("C17.params")
 	NoPanic("C17.params", func() { err = alliance.EndBlocker(e.Ctx, e.K) })
 	nd.Assert("C17.params", err == nil)
+}
+
+// H_C17_state: from every RI state (take rate and take-rate clock symbolic, pending unbondings,
+// a pending redelegation, rebalance requested or not) the whole EndBlocker returns nil without
+// panic at any later block time (take-rate exponent within the unrolling bound).
+func H_C17_state() {
+	id := "C17.state"
+	ps := shapeActor("shape")
+	pk := nd.Choice("pending", 3)
+	flag := nd.Choice("rebalance", 2)
+	st := Build(ps, Opts{TakeRate: true, Params: true, Rewards: true})
+	e := st.E
+	pendingUnbondings(st, pk)
+	InstallRedelegation(e, 1, 1, 0, 0, nd.IntRange("r1", "1", Pow30), nd.TimeRange("rc1", TLo, THi))
+	if flag == 1 {
+		_ = e.K.QueueAssetRebalanceEvent(e.Ctx)
+	}
+	tagLiveness(e, 0)
+	tagLiveness(e, 1)
+	t1 := nd.TimeRange("t1", TLo, THi)
+	nd.Assume(!t1.Before(st.T0))
+	boundIntervals(st, t1, 3)
+	e.WithBlock(t1, 101)
+	var err error
+	nd.Reach(id)
+	if !NoPanic(id, func() { err = alliance.EndBlocker(e.Ctx, e.K) }) {
+		return
+	}
+	ErrNote(err)
+	nd.Assert(id, err == nil)
+}
+
+// H_C17_decay_overflow: a reward change rate above one accepted by governance must not make the
+// compounding overflow the fixed-point range (exact arithmetic, library overflow panics enabled).
+func H_C17_decay_overflow_X() {
+	id := "C17.decay"
+	nd.Overflow(true)
+	rate := nd.DecRange("crate", "0.000000000000000001", "1000000")
+	if rate.GT(math.LegacyOneDec()) {
+		nd.Tag("growth-rate")
+	}
+	e, t0, a := decayState(rate, false, false)
+	n := nd.Choice("n", 9)
+	t1 := t0.Add(time.Duration(n) * time.Hour)
+	e.WithBlock(t1, 101)
+	_ = a
+	var err error
+	nd.Reach(id)
+	if !NoPanic(id, func() { err = alliance.EndBlocker(e.Ctx, e.K) }) {
+		return
+	}
+	nd.Assert(id, err == nil)
 }
